@@ -6,5 +6,6 @@ CONSTANTS
   Mode <- TraceMode
 INVARIANT Progress
 INVARIANT AcceptedUnderTol
+INVARIANT NothingSurvivesARestart
 INVARIANT TolerancesNeverIncrease
 CHECK_DEADLOCK FALSE
